@@ -47,6 +47,20 @@ pub fn set_case(sig_suffix: &str, what: &str, replay: Json) {
         c.case = Some((sig_suffix.to_string(), what.to_string(), replay));
     }
 }
+/// Used by `run_world` when the scenario runner did not describe the case itself.
+pub fn set_default_case(world_seed: u64) -> bool {
+    if let Some(c) = CTX.lock().unwrap().as_mut() {
+        if c.case.is_none() {
+            c.case = Some((
+                "case=see_replay".to_string(),
+                format!("world with simulation seed {world_seed} (= the case seed of the scenario)"),
+                Json::obj().set("world_seed", world_seed).set("note", "re-run the check with the same --seed: the case whose seed this is hangs"),
+            ));
+            return true;
+        }
+    }
+    false
+}
 pub fn clear_case() {
     if let Some(c) = CTX.lock().unwrap().as_mut() {
         c.case = None;
